@@ -191,6 +191,55 @@ def _bmc_jobs(tier):
     return jobs
 
 
+def h_receiver_pli(ctx, npk, cap):
+    """The key-frame request reaches the wire: whenever JitterBuffer.add signals pli=True inside
+    RTCRtpReceiver._handle_rtp_packet, that call sends a PLI (also when the same add() releases
+    a frame)."""
+    from aiortc.codecs.vpx import Vp8Encoder
+
+    from .c11_nackrtx import SSRC, _mk_receiver
+
+    r = _mk_receiver(False)
+    jb = JitterBuffer(capacity=cap, is_video=True)
+    r._RTCRtpReceiver__jitter_buffer = jb
+    flags, plis = [], []
+    orig_add = jb.add
+
+    def add(packet):
+        res = orig_add(packet)
+        flags.append(res)
+        return res
+
+    async def send_pli(ssrc):
+        plis.append(ssrc)
+
+    async def no_nack(ssrc, lost):
+        pass
+
+    jb.add = add
+    r._send_rtcp_pli = send_pli
+    r._send_rtcp_nack = no_nack
+    origin = ctx.int("origin", 0, M16)
+    both = False
+    for i in range(npk):
+        off = ctx.int("off%d" % i, 0, cap + 2)
+        p = RtpPacket(payload_type=96, sequence_number=(origin + off) & M16, timestamp=(1000 + 90 * off) & 0xFFFFFFFF, ssrc=SSRC, marker=1)
+        p.payload = Vp8Encoder._packetize(bytes([0xC0 + i] * 3), 100 + i)[0]
+        f0, n0 = len(flags), len(plis)
+        sx.run(r._handle_rtp_packet(p, arrival_time_ms=10 * i))
+        ctx.reach("receiver-handled")
+        if len(flags) > f0:
+            pli, frame = flags[-1]
+            if pli:
+                if frame is not None:
+                    both = True
+                ctx.check(len(plis) > n0, "receiver-sends-pli-when-the-buffer-signals", "frame released in the same call: %s" % (frame is not None))
+            else:
+                ctx.check(len(plis) == n0, "no-pli-without-signal")
+    ctx.observe("plis", len(plis))
+    ctx.observe("pli-and-frame-in-one-add", both)
+
+
 ENC = [
     "aiortc.jitterbuffer:JitterBuffer.add",
     "aiortc.jitterbuffer:JitterBuffer._remove_frame",
@@ -200,6 +249,18 @@ ENC = [
 ]
 
 HARNESSES = {
+    "receiver-pli": Harness(
+        "receiver-pli",
+        h_receiver_pli,
+        lambda tier: [{"npk": n, "cap": 4} for n in ((4,) if tier == "quick" else (4, 5))],
+        style="BMC",
+        bounds="real RTCRtpReceiver._handle_rtp_packet with a capacity-4 video jitter buffer; 4 (quick) / 4..5 single-packet VP8 frames at offsets 0..6 from a symbolic 16-bit origin, any order",
+        encoded=ENC + ["aiortc.rtcrtpreceiver:RTCRtpReceiver._handle_rtp_packet"],
+        stubs=["RTCP sending (_send_rtcp_pli/_send_rtcp_nack) recorded instead of serialised; decoder thread replaced by a queue; bandwidth estimator stubbed"],
+        outside=["capacity 128 as deployed"],
+        twin="receiver-handled",
+        opts={"samples": 1},
+    ),
     "step": Harness(
         "step",
         h_step,
